@@ -39,6 +39,10 @@ def main():
     os.makedirs(dstdir, exist_ok=True)
     confirm_file = os.path.join(dstdir, ".confirm.json")
     if a.phase == "check":
+        if not os.path.exists(patch):
+            # the agents' scratch worktrees are gone: use the kept copy
+            patch = os.path.join(dstdir, "patch.diff")
+            src = dstdir
         if os.path.exists(confirm_file):
             res.update(json.load(open(confirm_file)))
         else:
@@ -121,11 +125,13 @@ def check_phase(a, res, src, patch, dstdir, demo_name, cmd, extras):
         sh("git -C /repo checkout -- .")
     res["check_runs"] = runs
     res["detected_by"] = sorted({r["check"] for r in runs if r["exit"] == 1})
-    shutil.copy(patch, os.path.join(dstdir, "patch.diff"))
-    shutil.copy(os.path.join(src, a.demo), os.path.join(dstdir, demo_name + ".txt"))
+    if src != dstdir:
+        shutil.copy(patch, os.path.join(dstdir, "patch.diff"))
+        shutil.copy(os.path.join(src, a.demo), os.path.join(dstdir, demo_name + ".txt"))
     for x in extras:
-        shutil.copy(os.path.join(src, x), os.path.join(dstdir, os.path.basename(x).replace(".txt", "").lstrip("_") + ".txt"))
-    if os.path.exists(os.path.join(src, "notes.md")):
+        if src != dstdir:
+            shutil.copy(os.path.join(src, x), os.path.join(dstdir, os.path.basename(x).replace(".txt", "").lstrip("_") + ".txt"))
+    if src != dstdir and os.path.exists(os.path.join(src, "notes.md")):
         shutil.copy(os.path.join(src, "notes.md"), os.path.join(dstdir, "notes.md"))
     meta = {
         "breaks_property": a.id,
